@@ -13,6 +13,7 @@ import (
 	"strconv"
 	"strings"
 	"testing"
+	"testing/synctest"
 	"time"
 
 	"verifsim/simrt"
@@ -185,6 +186,7 @@ type ReplayFile struct {
 	Case      json.RawMessage `json:"case"`
 	Tape      []int           `json:"tape"`
 	Minimised bool            `json:"minimised"`
+	Race      bool            `json:"race,omitempty"`
 	Trace     []string        `json:"trace,omitempty"` // human readable schedule / fault / event excerpt
 }
 
@@ -235,6 +237,7 @@ func (c *Ctx) Report(v Violation, rf *ReplayFile) bool {
 		rf.Sig = v.Sig
 		rf.Detail = v.Detail
 		rf.Harness = c.Harness
+		rf.Race = simrt.RaceBuild
 		rf.Mode = c.Mode
 		rf.Tier = c.Tier
 		name := fmt.Sprintf("%s-%s-%s-%016x.json", v.Property, c.Harness, c.Mode, hash64(v.Sig, rf.RunSeed))
@@ -436,4 +439,118 @@ func freshDir(c *Ctx, name string) string {
 		panic(err)
 	}
 	return d
+}
+
+// ---------------------------------------------------------------------------
+// Race detector reports (race builds only): GORACE=log_path=<prefix> makes the
+// runtime append reports to <prefix>.<pid>; after each simulated run the
+// harness reads what was added and attributes it to that run.
+// ---------------------------------------------------------------------------
+
+var raceLogOff int64
+
+func raceLogPath() string {
+	for _, kv := range strings.Fields(os.Getenv("GORACE")) {
+		if strings.HasPrefix(kv, "log_path=") {
+			return fmt.Sprintf("%s.%d", strings.TrimPrefix(kv, "log_path="), os.Getpid())
+		}
+	}
+	return ""
+}
+
+// raceDelta returns the race detector output produced since the last call.
+func raceDelta() string {
+	p := raceLogPath()
+	if p == "" {
+		return ""
+	}
+	f, err := os.Open(p)
+	if err != nil {
+		return ""
+	}
+	defer f.Close()
+	fi, err := f.Stat()
+	if err != nil || fi.Size() <= raceLogOff {
+		return ""
+	}
+	buf := make([]byte, fi.Size()-raceLogOff)
+	n, _ := f.ReadAt(buf, raceLogOff)
+	raceLogOff += int64(n)
+	return string(buf[:n])
+}
+
+var frameRe = regexp.MustCompile(`^\s+([A-Za-z0-9_./\-]+(\.\([^)]*\))?\.[A-Za-z0-9_.\[\]…,* ]+)\(`)
+
+// raceSigs turns race reports into signatures "data-race|<top frame 1>|<top frame 2>" (frames inside go-sstables preferred).
+func raceSigs(text string) (sigs []string, details []string) {
+	reports := strings.Split(text, "WARNING: DATA RACE")
+	for _, rep := range reports[1:] {
+		lines := strings.Split(rep, "\n")
+		var tops []string
+		for i := 0; i < len(lines); i++ {
+			l := lines[i]
+			if strings.Contains(l, " by goroutine ") || strings.Contains(l, " by main goroutine") {
+				if !(strings.HasPrefix(l, "Read at") || strings.HasPrefix(l, "Write at") || strings.HasPrefix(l, "Previous read at") || strings.HasPrefix(l, "Previous write at")) {
+					continue
+				}
+				// collect frames until an empty line; prefer the first frame inside the repository
+				best := ""
+				for j := i + 1; j < len(lines) && strings.TrimSpace(lines[j]) != ""; j++ {
+					if m := frameRe.FindStringSubmatch(lines[j]); m != nil {
+						fn := m[1]
+						if best == "" {
+							best = fn
+						}
+						if strings.Contains(fn, "go-sstables") {
+							best = fn
+							break
+						}
+					}
+				}
+				if best != "" {
+					if k := strings.LastIndex(best, "go-sstables/"); k >= 0 {
+						best = best[k+len("go-sstables/"):]
+					}
+					tops = append(tops, best)
+				}
+			}
+		}
+		sort.Strings(tops)
+		sig := "data-race|" + strings.Join(tops, "|")
+		sigs = append(sigs, sig)
+		d := rep
+		if len(d) > 2500 {
+			d = d[:2500]
+		}
+		details = append(details, "WARNING: DATA RACE"+d)
+	}
+	return
+}
+
+// tapeFor returns the tape a replay file asks for: the recorded (possibly minimised) choices, or - when none were
+// recorded (race-detector runs) - the generator seeded like the original run.
+func tapeFor(rf *ReplayFile) *simrt.Tape {
+	if len(rf.Tape) == 0 && !rf.Minimised {
+		t := simrt.NewTape(rf.RunSeed)
+		t.NoRec = simrt.RaceBuild
+		return t
+	}
+	return simrt.ReplayTape(rf.Tape)
+}
+
+// runBubble runs f in a synctest bubble on a helper goroutine. When the race detector has reported a race inside
+// the bubble, testing makes synctest.Test end the calling goroutine with runtime.Goexit; running it on a helper
+// goroutine keeps the harness alive. A panic of the bubble (e.g. its end-of-bubble deadlock panic) is re-raised here.
+func runBubble(t *testing.T, f func(t *testing.T)) {
+	var pv any
+	done := make(chan struct{})
+	go func() {
+		defer close(done)
+		defer func() { pv = recover() }()
+		synctest.Test(t, f)
+	}()
+	<-done
+	if pv != nil {
+		panic(pv)
+	}
 }
